@@ -116,6 +116,15 @@ func LabelWire(hostile bool) *rapid.Generator[[]byte] {
 			}
 			bounds = append(bounds, mine...)
 		}
+		if hostile && rapid.IntRange(0, 9).Draw(t, "ring") == 0 {
+			// a closed ring of k pointers (no label on it), optionally behind a name
+			k := rapid.IntRange(1, 24).Draw(t, "ringlen")
+			base := len(b)
+			for i := 0; i < k; i++ {
+				next := base + 2*((i+1)%k)
+				b = append(b, 0xC0|byte(next>>8), byte(next))
+			}
+		}
 		if hostile {
 			for k := rapid.IntRange(0, 2).Draw(t, "nmut"); k > 0 && len(b) > 0; k-- {
 				switch rapid.IntRange(0, 4).Draw(t, "mut") {
